@@ -669,6 +669,7 @@ def run(ctx):
         "only for complete data; (R08.4) estimator/normalisation/distance dispatch tables agree and normalisation is applied once; (R08.5) "
         "direction logic; (R08.6) estimator even, distances symmetric. NOT decided: numerical constants of Cressie's estimator, haversine "
         "and band geometry formulas."
+        ' (R08.9-R08.11) loop extents, bounds, allocation, precision and exits of the variogram kernels; estimator forwarding through every wrapper; mask / NaN guards as truth tables; band test in the right power, angle test with |s_prod|, Matheron quotient, per-pair estimator terms.'
     )
 
 
